@@ -400,6 +400,9 @@ func replay(in string) {
 	case "rec":
 		replayRecord, _ = c["record"].(string)
 		runRecords(&rng{s: 1}, "quick")
+	case "recfile":
+		replayFault = c
+		runRecords(&rng{s: 1}, "quick")
 	}
 }
 
@@ -412,6 +415,7 @@ func main() {
 	worker := flag.Bool("worker", false, "")
 	flag.IntVar(&skipUntil, "skip", 0, "")
 	flag.BoolVar(&careful, "careful", false, "")
+	flag.BoolVar(&childPreferIndex, "prefer", false, "")
 	flag.Parse()
 	if *ch != "" {
 		child(*ch)
